@@ -77,6 +77,15 @@ fn custom<'a, T: Queryable>(name: &str, args: &Vec<FnArg>, state: State<'a, T>) 
 /// - Object type: Number of members
 /// - Other types: Nothing
 fn length<T: Queryable>(state: State<T>) -> State<T> {
+    #[cfg(jsonpath_rust_verif)]
+    if crate::verif::active() && !crate::verif::reenter(crate::verif::FUNC) {
+        let args = serde_json::json!([crate::verif::fn_operand(&state)]);
+        crate::verif::set_reenter(crate::verif::FUNC);
+        let out = length(state);
+        crate::verif::emit(serde_json::json!({"ev": "fn", "name": "length", "args": args,
+            "result": crate::verif::fn_operand(&out)}));
+        return out;
+    }
     let from_item = |item: &T| {
         if let Some(v) = item.as_str() {
             State::i64(v.chars().count() as i64, state.root)
@@ -101,6 +110,15 @@ fn length<T: Queryable>(state: State<T>) -> State<T> {
 /// to obtain the number of nodes in a nodelist
 /// and make that available for further processing in the filter expression
 fn count<T: Queryable>(state: State<T>) -> State<T> {
+    #[cfg(jsonpath_rust_verif)]
+    if crate::verif::active() && !crate::verif::reenter(crate::verif::FUNC) {
+        let args = serde_json::json!([crate::verif::fn_operand(&state)]);
+        crate::verif::set_reenter(crate::verif::FUNC);
+        let out = count(state);
+        crate::verif::emit(serde_json::json!({"ev": "fn", "name": "count", "args": args,
+            "result": crate::verif::fn_operand(&out)}));
+        return out;
+    }
     let to_state = |count: i64| State::i64(count, state.root);
 
     match state.data {
@@ -136,6 +154,15 @@ fn regex_with<'a, T: Queryable>(
     substr: bool,
     literal_pattern: bool,
 ) -> State<'a, T> {
+    #[cfg(jsonpath_rust_verif)]
+    if crate::verif::active() && !crate::verif::reenter(crate::verif::FUNC) {
+        let args = serde_json::json!([crate::verif::fn_operand(&lhs), crate::verif::fn_operand(&rhs)]);
+        crate::verif::set_reenter(crate::verif::FUNC);
+        let out = regex_with(lhs, rhs, substr, literal_pattern);
+        crate::verif::emit(serde_json::json!({"ev": "fn", "name": if substr { "search" } else { "match" }, "args": args,
+            "result": crate::verif::fn_operand(&out)}));
+        return out;
+    }
     let to_state = |b| State::bool(b, lhs.root);
     let regex = |v: &str, r: Regex| {
         if substr {
@@ -206,6 +233,15 @@ fn prepare_regex(pattern: String, substring: bool, literal_pattern: bool) -> Str
 }
 
 fn value<T: Queryable>(state: State<T>) -> State<T> {
+    #[cfg(jsonpath_rust_verif)]
+    if crate::verif::active() && !crate::verif::reenter(crate::verif::FUNC) {
+        let args = serde_json::json!([crate::verif::fn_operand(&state)]);
+        crate::verif::set_reenter(crate::verif::FUNC);
+        let out = value(state);
+        crate::verif::emit(serde_json::json!({"ev": "fn", "name": "value", "args": args,
+            "result": crate::verif::fn_operand(&out)}));
+        return out;
+    }
     match state.data {
         Data::Ref(..) | Data::Value(..) => state,
         Data::Refs(items) if items.len() == 1 => {
